@@ -3,6 +3,7 @@ package props
 import (
 	"bytes"
 	"fmt"
+	"os"
 	"strings"
 
 	"github.com/robfig/soy"
@@ -424,6 +425,27 @@ var c06Families = []c06Family{
 			bundle := soy.NewBundle().AddGlobalsMap(m)
 			_, cerr := bundle.AddTemplateString("g.soy", "{namespace g}\n{template .t}x{/template}\n").CompileToTofu()
 			_ = cerr
+			// ... and so must a second definition of every name in it (a conflict: an error value, whatever the values
+			// are), through the map and through the file on disk
+			if len(m) > 0 && k%2 == 0 {
+				_, cerr = soy.NewBundle().AddGlobalsMap(m).AddGlobalsMap(m).AddTemplateString("g.soy", "{namespace g}\n{template .t}x{/template}\n").CompileToTofu()
+				if cerr == nil {
+					return fw.Result{Verdict: fw.Violated, Key: "redefined-global-accepted", Case: text, Msg: "AddGlobalsMap twice with the same names compiled without error"}
+				}
+				ctx.Obs("globals_redefined", 1)
+				if k%8 == 0 {
+					if f, ferr := os.CreateTemp("", "c06globals"); ferr == nil {
+						f.WriteString(text)
+						f.Close()
+						_, cerr = soy.NewBundle().AddGlobalsFile(f.Name()).AddGlobalsFile(f.Name()).AddTemplateString("g.soy", "{namespace g}\n{template .t}x{/template}\n").CompileToTofu()
+						os.Remove(f.Name())
+						if cerr == nil {
+							return fw.Result{Verdict: fw.Violated, Key: "redefined-global-accepted", Case: text, Msg: "AddGlobalsFile twice with the same file compiled without error"}
+						}
+						ctx.Cell("entry:AddGlobalsFile")
+					}
+				}
+			}
 		}
 		return fw.Result{Verdict: fw.Held}
 	}},
